@@ -12,6 +12,7 @@ package binary
 //@   ensures[C08] err-is-unsupported: result1 != nil ==> result1.isNS && isnil(result0)
 //@   ensures ok-nonnil: result1 == nil ==> !isnil(result0)
 //@ func NewVectorOperator
+//@   assigns nothing
 //@   requires matching != nil
 //@   ensures[C08] err-is-unsupported: result1 != nil ==> (result1.isNS || result1.isNI) && result0 == nil
 //@   ensures ok-nonnil: result1 == nil ==> result0 != nil
@@ -20,6 +21,7 @@ package binary
 //@   at binary.newOperation assert[C08] operation-of-the-node: $expr == operation && $vectorBinOp
 
 //@ func NewScalar
+//@   assigns nothing
 //@   ensures[C08] err-is-unsupported: result1 != nil ==> (result1.isNS || result1.isNI) && result0 == nil
 //@   ensures ok-nonnil: result1 == nil ==> result0 != nil
 //@   ensures[C08] operator-support-decided-at-construction: ncalls("binary.newOperation") == 1 && (result1 != nil) == (callres("binary.newOperation", 1, 1) != nil)
@@ -50,6 +52,7 @@ package binary
 //  - the operation receives (left value, right value); with bool the value is 1/0, otherwise a
 //    sample is emitted only if the operation keeps it.
 //@ func (*table).execBinaryOperation
+//@   assigns elems(execution/binary.outputSample)
 //@   requires tblInv(t) && lhs.T == rhs.T && lhs.T >= 0
 //@   requires t.card == parser.CardOneToMany ==> idsWithin(lhs, t.lowCardOutputIndex.nIn) && idsWithin(rhs, t.highCardOutputIndex.nIn)
 //@   requires t.card != parser.CardOneToMany ==> idsWithin(lhs, t.highCardOutputIndex.nIn) && idsWithin(rhs, t.lowCardOutputIndex.nIn)
@@ -106,6 +109,7 @@ package binary
 // is arithmetic or carries the bool modifier (promql.VectorscalarBinop); the name is dropped on a
 // private copy, never on the label set handed out by the operand (it may be shared, C17).
 //@ func (*scalarOperator).loadSeries
+//@   assigns execution/binary.scalarOperator.series
 //@   requires o != nil && o.next != nil && ctx != nil
 //@   panics may
 //@   ghostvar dropped bool = false
